@@ -203,7 +203,10 @@ class Check:
         for ob in self.obs:
             if ob.status == REFUTED and ob.replay is not None and callable(ob.replay[1]):
                 try:
-                    ob.replay = (ob.replay[0], ob.replay[1](ob.model or {}))
+                    args = ob.replay[1](ob.model or {})
+                    if isinstance(args, dict):
+                        args.setdefault("clause", ob.name.split("#", 1)[-1])
+                    ob.replay = (ob.replay[0], args)
                 except Exception as e:
                     ob.replay = (ob.replay[0], {"__builder_error__": f"{type(e).__name__}: {e}"})
         if self.tier == "thorough":
@@ -302,7 +305,10 @@ class Check:
         for f in self.findings:
             if f.get("status") != "open" or f["property"] != self.prop:
                 continue
-            if fnmatch.fnmatchcase(ob.name, f["obligation"]) and fnmatch.fnmatchcase(ob.instance, f["instance"]):
+            pats = f["instance"] if isinstance(f["instance"], list) else [f["instance"]]
+            obpats = f["obligation"] if isinstance(f["obligation"], list) else [f["obligation"]]
+            if any(fnmatch.fnmatchcase(ob.name, op) for op in obpats) and any(
+                    fnmatch.fnmatchcase(ob.instance, ip) for ip in pats):
                 return f
         return None
 
